@@ -180,7 +180,9 @@ func (api *API) mapEncodeStructFields(
 			fieldType := sField.fType
 			if fieldValue.Kind() == reflect.Ptr {
 				if fieldValue.IsNil() {
-					continue
+					// the decoder always allocates an embedded pointer struct and looks up its fields,
+					// so skipping it here would produce a map that can't be decoded (same as in encodeStructFields).
+					return ierrors.Errorf("unexpected nil pointer for embedded struct field %s", sField.name)
 				}
 				fieldValue = fieldValue.Elem()
 				fieldType = fieldType.Elem()
